@@ -24,7 +24,9 @@ EXTENDS Naturals, Sequences, FiniteSets, TLC, Json
 
 CONSTANTS URIs,        \* documents
           MaxChanges,  \* total number of deliveries in the burst
-          Guard        \* "none" | "latest"
+          Guard,       \* "none" | "latest"
+          Split        \* FALSE: check+send is one atomic step (publish lock held across both);
+                       \* TRUE: the decision (Check) and the delivery to the client (Send) are separate steps
 
 VARIABLES ver,         \* URI -> latest delivered version (0 = never opened)
           jobs,        \* set of [uri, ver, pc]   pc \in {"run", "pub"}
@@ -57,6 +59,7 @@ Step(j) ==
 
 (* the publish point: one atomic step (the repaired code holds a lock across check+publish) *)
 AtPublish(j) ==
+    /\ ~Split
     /\ j \in jobs /\ j.pc = "pub"
     /\ jobs' = jobs \ {j}
     /\ LET stale == j.ver # ver[j.uri]
@@ -65,12 +68,33 @@ AtPublish(j) ==
           /\ h' = Append(h, [e |-> "publish", uri |-> j.uri, ver |-> j.ver])
     /\ UNCHANGED <<ver, delivered>>
 
+(* Split mechanism: the staleness decision and the delivery of the notification are two steps;
+   another job may run in between.  With Guard = "latest" this is exactly the defect of checking
+   outside the critical section; TLC finds  D1 check(1) D2 check(2) send(2) send(1). *)
+Check(j) ==
+    /\ Split
+    /\ j \in jobs /\ j.pc = "pub"
+    /\ LET skip == Guard = "latest" /\ j.ver # ver[j.uri]
+       IN jobs' = IF skip THEN jobs \ {j} ELSE (jobs \ {j}) \cup {[j EXCEPT !.pc = "send"]}
+    /\ h' = Append(h, [e |-> "check", uri |-> j.uri, ver |-> j.ver])
+    /\ UNCHANGED <<ver, published, delivered>>
+
+Send(j) ==
+    /\ Split
+    /\ j \in jobs /\ j.pc = "send"
+    /\ jobs' = jobs \ {j}
+    /\ published' = [published EXCEPT ![j.uri] = j.ver]
+    /\ h' = Append(h, [e |-> "send", uri |-> j.uri, ver |-> j.ver])
+    /\ UNCHANGED <<ver, delivered>>
+
 Next == \/ \E u \in URIs : Deliver(u)
-        \/ \E j \in jobs : Step(j) \/ AtPublish(j)
+        \/ \E j \in jobs : Step(j) \/ AtPublish(j) \/ Check(j) \/ Send(j)
 
 Fairness == \A u \in URIs, v \in 1..MaxChanges :
                /\ WF_vars(Step([uri |-> u, ver |-> v, pc |-> "run"]))
                /\ WF_vars(AtPublish([uri |-> u, ver |-> v, pc |-> "pub"]))
+               /\ WF_vars(Check([uri |-> u, ver |-> v, pc |-> "pub"]))
+               /\ WF_vars(Send([uri |-> u, ver |-> v, pc |-> "send"]))
 Spec == Init /\ [][Next]_vars /\ Fairness
 
 TypeOK == /\ ver \in [URIs -> 0..MaxChanges]
